@@ -26,8 +26,9 @@ PROPS["C02"] = {
         "utf8_shape (first-byte class + 10xxxxxx tails) is what utf8_nfa accepts: assumed",
         "unit utf8stream: the compiled UTF8DFA is an abstract DFA (uninterpreted start/transition/accepting) whose states are layered by bytes read and whose incomplete sequences have at most three bytes (axiom_dfa_depth, assumed); "
         "the BufRead source is io::Cursor<&[u8]> specified by its contract (fill_buf lends all remaining bytes without changing the cursor, consume(n) advances)",
+        "DECRPSS (ReportSettingMatcher) harnesses need normalisation K1: tracing log statements removed from src/decoder.rs in the scratch copy (kani-compiler 0.68 crashes on tracing's callsite code)",
         "payload decoder harnesses replace number_decode by a stub justified by its Verus contract; each covers one sequence template (bounded in shape, complete in numeric values)",
-        "TermCapMatcher, DeviceAttrsMatcher (BTreeMap/BTreeSet), ReportSettingMatcher (a harness on it crashes kani-compiler 0.68), OSControlMatcher and parse_color (str parsing: harnesses were built and withdrawn, CBMC does not finish): not under contract",
+        "TermCapMatcher, DeviceAttrsMatcher (BTreeMap/BTreeSet), OSControlMatcher and parse_color (str parsing: harnesses were built and withdrawn, CBMC does not finish): not under contract",
     ],
 }
 
